@@ -141,7 +141,8 @@ static void split_before_chunk(Chunk *pc)
    Chunk *prev = pc->GetPrev();
 
    if (  !pc->IsNewline()
-      && !prev->IsNewline())
+      && !prev->IsNewline()
+      && !pc->GetPrevNvb()->IsNewline())     // (nothing to split if only virtual braces precede pc on its line)
    {
       newline_add_before(pc);
       // Mark chunk as continuation line, so indentation can be
